@@ -41,9 +41,10 @@ def handle (op : String) (args : List String) : Option String :=
     let uuid ← kvNat args "uuid"
     let env ← (kv args "env").bind parseLookup
     let chunks ← kvBytesList args "chunks"
-    let o := handleIncomingStream max ⟨lp, rp, uuid⟩ chunks env
+    let last := Driver.Framing.kvLast args
+    let o := handleIncomingStreamE max ⟨lp, rp, uuid⟩ chunks last env
     -- which branch of the model the case took (for the engine's coverage requirements)
-    let br := match readHeader max chunks with
+    let br := match readHeaderE max chunks last with
       | .ok _ => "ok"
       | .error e => Driver.Framing.errName e
     some s!"disp={showDirective o.dispatched} deliv={showFacts o.delivered} closed={b01 o.closed} br={br}"
